@@ -48,7 +48,14 @@ impl Distribution for Exponential {
     /// Uses the [inverse transform
     /// sampling](https://en.wikipedia.org/wiki/Inverse_transform_sampling) method.
     fn sample(&self) -> f64 {
-        -self.rng.sample().ln() / self.lambda
+        // the generator yields values in [0, 1): ln(0) would give an infinite draw
+        let u = loop {
+            let u = self.rng.sample();
+            if u > 0. {
+                break u;
+            }
+        };
+        -u.ln() / self.lambda
     }
 }
 
